@@ -178,6 +178,10 @@ def _cache(ctx, prog):
             names = [c.short for c in p["calls"]]
             if t is False and not ("FnOnce::call_once" in names and "Cache::set_rev" in names):
                 bad.append("a not-dirty path skips the copy-in or the stamp")
+            # the copy-in STORE itself (not only the call of f) lies on every not-dirty path: a stale entry left by an
+            # abandoned operation is always overwritten by the storage (added after the independent seed C21-2)
+            if t is False and not any(w["bb"] in p.get("blocks", []) for w in writes):
+                bad.append("a not-dirty path reaches the return without the copy-in store `*self = f()`")
             if t is True and ("FnOnce::call_once" in names or "Cache::set_rev" in names):
                 bad.append("a dirty path reloads from storage (would drop writes)")
             if t is None:
